@@ -18,6 +18,8 @@ EXTRA = {"C01-C": ["C07"], "C02-C": ["C16", "C10"], "C03-C": ["C16", "C10"], "C0
          "C01-E": ["C07"], "C01-F": ["C06"], "C05-E": ["C08"], "C05-F": ["C02"], "C12-E": ["C11"], "C12-F": ["C02", "C10"], "C13-E": ["C14"], "C13-F": ["C14"], "C14-E": ["C13"], "C14-F": ["C17"],
          "C02-G": ["C09", "C03"], "C02-H": ["C03", "C09"], "C05-G": ["C15"], "C05-H": ["C17", "C10"], "C08-G": ["C04", "C02"], "C08-H": ["C03"], "C09-G": ["C02", "C08"], "C09-H": ["C02"],
          "C10-G": ["C17", "C05"], "C10-H": ["C08"], "C03-G": ["C10"], "C03-H": ["C16"], "C11-G": ["C12"], "C11-H": ["C12"], "C16-G": ["C17"], "C16-H": ["C10"], "C17-G": ["C06"], "C17-H": ["C18"], "C18-G": ["C04", "C09"], "C18-H": ["C11"],
+         "C01-I": ["C07"], "C01-J": ["C07"], "C07-I": ["C01"], "C07-J": ["C01"], "C12-J": ["C17"], "C13-I": ["C14"], "C13-J": ["C14"], "C14-I": ["C01"], "C14-J": ["C01"], "C15-I": ["C05"], "C15-J": ["C05"],
+         "C19-I": ["C01"], "C19-J": ["C01", "C07"], "C04-I": ["C08"], "C04-J": ["C08"], "C06-I": ["C01"], "C06-J": ["C01"],
          "C15-E": ["C05"], "C15-F": ["C05"], "C17-F": ["C18"], "C19-E": ["C01"], "C19-F": ["C01"],
          "C02-B": ["C16"], "C05-B": ["C16"], "C07-B": ["C17"], "C13-B": ["C17"], "C03-B": ["C10"], "C10-A": ["C03"], "C16-B": ["C05"], "C08-B": ["C03", "C04"], "C01-B": ["C06"], "C06-B": ["C01"]}
 
@@ -30,12 +32,12 @@ def main():
     titles = {p["id"]: p["title"] for p in props}
     items = []
     for d in sorted(os.listdir(SRC)):
-        m = re.fullmatch(r"(C\d\d)([abcd])", d)
+        m = re.fullmatch(r"(C\d\d)([abcde])", d)
         if not m:
             continue
         for x in "AB":
             # second-round changes (directories CNNb) are filed as C and D, third-round ones (CNNc) as E and F, fourth-round ones (CNNd) as G and H
-            sid = f"{m.group(1)}-{ {'a': {'A': 'A', 'B': 'B'}, 'b': {'A': 'C', 'B': 'D'}, 'c': {'A': 'E', 'B': 'F'}, 'd': {'A': 'G', 'B': 'H'}}[m.group(2)][x] }"
+            sid = f"{m.group(1)}-{ {'a': {'A': 'A', 'B': 'B'}, 'b': {'A': 'C', 'B': 'D'}, 'c': {'A': 'E', 'B': 'F'}, 'd': {'A': 'G', 'B': 'H'}, 'e': {'A': 'I', 'B': 'J'}}[m.group(2)][x] }"
             if todo and sid not in todo:
                 continue
             patch = f"{SRC}/{d}/patch{x}.ported.diff"
